@@ -132,6 +132,11 @@ def run(c):
     for a in range(1, 6):
         for b in (20, 28, 32, 36, 45):
             cases.append(("chain3", "path", [("a", "c"), ("a", "c")], [("T2", a), ("T1", b), ("T2", 3), ("T1", 10 ** 6)]))
+    # every ONE-pre-emption schedule of two threads on a freshly populated layer: T1 runs k traced lines (into the lazy rebuild, into its search, into a sort key ...),
+    # T2 runs to completion, T1 finishes -- for every k up to the length of T1's own run
+    for gname, kind, eps in (("chain3", "path", [("a", "c"), ("c", "a")]), ("chain4", "compile", [("a", "d"), ("b", "d")])):
+        for k in range(1, 140 if kind == "path" else 200, 1 if c.tier == "thorough" or kind == "path" else 2):
+            cases.append((gname, kind, eps, [("T1", k), ("T2", 10 ** 6), ("T1", 10 ** 6)]))
     bad_cases, lines = [], 0
     for gname, kind, eps, plan in cases:
         bad, ntrace = run_case(gname, kind, eps, plan)
